@@ -39,6 +39,7 @@ const char* const kProbeNames[PR_N] = {
 Shared* SH = nullptr;
 uint8_t* g_cov = nullptr;
 uint32_t g_cov_n = 0;
+uint8_t* g_pairs = nullptr;
 thread_local TaskCtx* t_task = nullptr;
 bool g_threads_mode = false;
 bool g_in_op = false;
